@@ -73,242 +73,247 @@ def run(ctx: Context) -> None:
                   construct=f"{fi.short}: " + (norm_text(boxes[0]) if boxes else 'no box() call'))
 
     # ---- R20.2
-    for fi in (ga, ba):
-        cfg = ctx.cfg(fi)
-        flow = ctx.flow(fi)
-        exits = cfg.exits()
-        falls = [n for k, n in exits if k == 'fall']
-        raises = [n for k, n in exits if k == 'raise']
-        bad_raise = [r for r in raises if not (isinstance(r.exc, ast.Call) and (dotted(r.exc.func) or '').endswith('ArgumentTypeError'))]
-        for k, n in exits:
-            if k == 'return':
-                v = flow.resolve(n.value) if n.value is not None else None
-                if not (isinstance(v, ast.Call) and (callee(ctx, fi, v) or '').rsplit('.', 1)[-1] in ('box', 'shape')):
-                    falls.append(n)
-        ctx.check('R20.2', not falls and not bad_raise and raises, "every exit is a parsed geometry or an ArgumentTypeError", fi,
-                  (falls + bad_raise + [fi.node])[0],
-                  construct=f"{fi.short}: {len(falls)} exit(s) without a geometry, {len(bad_raise)} raise(s) of another type, {len(raises)} raise(s)")
-    flow = ctx.flow(ga)
-    cfg = ctx.cfg(ga)
-    bounds_use = [u for f2, u in uses if f2 is ga]
-    loads = [c for c in calls_in(ga) if callee(ctx, ga, c) == 'json.loads']
-    exists = [c for c in method_calls(ga, 'exists')]
-    ok_order = False
-    if bounds_use and loads and exists:
-        from ..cfg import stmt_of
-        s_b, s_j, s_e = stmt_of(ga, bounds_use[0]), stmt_of(ga, loads[0]), stmt_of(ga, exists[0])
-        ok_order = (s_b.lineno < s_j.lineno < s_e.lineno and cfg.dominates(s_b, s_j))
-    ctx.check('R20.2', ok_order, "bounds are tried first, then a JSON string, then a path", ga, loads[0] if loads else ga.node,
-              construct='order: bounds_re -> json.loads -> Path.exists')
-    ok_json_arg = bool(loads) and flow.canon(loads[0].args[0]) == ('param', ga.params[0])
-    shapes = [c for c in calls_in(ga) if (callee(ctx, ga, c) or '').endswith('shapely.geometry.shape')]
-    ctx.check('R20.2', ok_json_arg and len(shapes) == 2, "the JSON text is the raw argument and is turned into a geometry by shapely.geometry.shape", ga,
-              loads[0] if loads else ga.node)
-    ok_file = False
-    for c in shapes:
-        a = flow.resolve(c.args[0]) if c.args else None
-        if isinstance(a, ast.Call) and callee(ctx, ga, a) == 'json.load':
-            tests = [(norm_text(st.test), inb) for st, inb in enclosing_ifs(ga, c)]
-            suffix = any(inb and 'suffix' in t and '.geojson' in t and '.json' in t for t, inb in tests)
-            ok_file = suffix
-    nx = [n for n in walk_no_nested(ga.node) if isinstance(n, ast.If) and norm_text(n.test).startswith('not ') and 'exists()' in norm_text(n.test)
-          and any(isinstance(s, ast.Raise) for s in n.body)]
-    ctx.check('R20.2', ok_file and len(nx) == 1, "a file is read only if it exists and has a .json/.geojson suffix; otherwise an error", ga,
-              nx[0] if nx else ga.node, construct='if not path.exists(): raise ...; if suffix in {.geojson,.json}: shape(json.load(f)) else: raise')
+    with ctx.section('R20.2'):
+        for fi in (ga, ba):
+            cfg = ctx.cfg(fi)
+            flow = ctx.flow(fi)
+            exits = cfg.exits()
+            falls = [n for k, n in exits if k == 'fall']
+            raises = [n for k, n in exits if k == 'raise']
+            bad_raise = [r for r in raises if not (isinstance(r.exc, ast.Call) and (dotted(r.exc.func) or '').endswith('ArgumentTypeError'))]
+            for k, n in exits:
+                if k == 'return':
+                    v = flow.resolve(n.value) if n.value is not None else None
+                    if not (isinstance(v, ast.Call) and (callee(ctx, fi, v) or '').rsplit('.', 1)[-1] in ('box', 'shape')):
+                        falls.append(n)
+            ctx.check('R20.2', not falls and not bad_raise and raises, "every exit is a parsed geometry or an ArgumentTypeError", fi,
+                      (falls + bad_raise + [fi.node])[0],
+                      construct=f"{fi.short}: {len(falls)} exit(s) without a geometry, {len(bad_raise)} raise(s) of another type, {len(raises)} raise(s)")
+        flow = ctx.flow(ga)
+        cfg = ctx.cfg(ga)
+        bounds_use = [u for f2, u in uses if f2 is ga]
+        loads = [c for c in calls_in(ga) if callee(ctx, ga, c) == 'json.loads']
+        exists = [c for c in method_calls(ga, 'exists')]
+        ok_order = False
+        if bounds_use and loads and exists:
+            from ..cfg import stmt_of
+            s_b, s_j, s_e = stmt_of(ga, bounds_use[0]), stmt_of(ga, loads[0]), stmt_of(ga, exists[0])
+            ok_order = (s_b.lineno < s_j.lineno < s_e.lineno and cfg.dominates(s_b, s_j))
+        ctx.check('R20.2', ok_order, "bounds are tried first, then a JSON string, then a path", ga, loads[0] if loads else ga.node,
+                  construct='order: bounds_re -> json.loads -> Path.exists')
+        ok_json_arg = bool(loads) and flow.canon(loads[0].args[0]) == ('param', ga.params[0])
+        shapes = [c for c in calls_in(ga) if (callee(ctx, ga, c) or '').endswith('shapely.geometry.shape')]
+        ctx.check('R20.2', ok_json_arg and len(shapes) == 2, "the JSON text is the raw argument and is turned into a geometry by shapely.geometry.shape", ga,
+                  loads[0] if loads else ga.node)
+        ok_file = False
+        for c in shapes:
+            a = flow.resolve(c.args[0]) if c.args else None
+            if isinstance(a, ast.Call) and callee(ctx, ga, a) == 'json.load':
+                tests = [(norm_text(st.test), inb) for st, inb in enclosing_ifs(ga, c)]
+                suffix = any(inb and 'suffix' in t and '.geojson' in t and '.json' in t for t, inb in tests)
+                ok_file = suffix
+        nx = [n for n in walk_no_nested(ga.node) if isinstance(n, ast.If) and norm_text(n.test).startswith('not ') and 'exists()' in norm_text(n.test)
+              and any(isinstance(s, ast.Raise) for s in n.body)]
+        ctx.check('R20.2', ok_file and len(nx) == 1, "a file is read only if it exists and has a .json/.geojson suffix; otherwise an error", ga,
+                  nx[0] if nx else ga.node, construct='if not path.exists(): raise ...; if suffix in {.geojson,.json}: shape(json.load(f)) else: raise')
 
     # ---- R20.3
-    nc = ctx.func(f"{CU}.nice_console_errors")
-    tries = [n for n in walk_no_nested(nc.node) if isinstance(n, ast.Try)]
-    ctx.need('R20.3', len(tries) == 1 and any(isinstance(s, ast.Expr) and isinstance(s.value, ast.Yield) for s in tries[0].body),
-             "nice_console_errors wraps its yield in one try", nc)
-    handlers = tries[0].handlers
-    names = []
-    for h in handlers:
-        nm = 'BaseException' if h.type is None else norm_text(h.type)
-        names.append(nm)
-        last = h.body[-1] if h.body else None
-        ok = False
-        detail = 'no sys.exit at the end of the handler'
-        if isinstance(last, ast.Expr) and isinstance(last.value, ast.Call) and (dotted(last.value.func) in ('sys.exit', 'exit', 'os._exit')
-                                                                                  or dotted(last.value.func) == 'SystemExit'):
-            arg = last.value.args[0] if last.value.args else None
-            v = const_value(arg, None) if arg is not None else None
-            if isinstance(v, int) and not isinstance(v, bool) and v != 0:
-                ok = True
-                detail = f"exit({v})"
-            elif arg is not None and isinstance(arg, ast.Attribute) and arg.attr == 'code' and isinstance(arg.value, ast.Name) and arg.value.id == h.name:
-                ok = True
-                detail = 'exit(err.code)'
-            else:
-                detail = f"exit({norm_text(arg) if arg is not None else ''})"
-        elif isinstance(last, ast.Raise) and isinstance(last.exc, ast.Call) and dotted(last.exc.func) == 'SystemExit':
-            v = const_value(last.exc.args[0], None) if last.exc.args else None
-            ok = isinstance(v, int) and v != 0
-            detail = f"raise SystemExit({v})"
-        ctx.check('R20.3', ok, "the handler ends with a non-zero exit status", nc, h, construct=f"except {nm}: ... {detail}")
-    ctx.check('R20.3', 'Exception' in names and 'CommandException' in names, "user-facing and unexpected errors are both handled", nc, tries[0],
-              construct=f"handlers {names}")
-    ce = p.cls('emsarray.cli.exceptions.CommandException')
-    init = ce.methods.get('__init__')
-    ok_code = False
-    if init is not None:
-        from .common import param_default
-        d = param_default(init, 'code')
-        v = const_value(d, None) if d is not None else None
-        ok_code = isinstance(v, int) and v != 0 and any(norm_text(n) == 'self.code = code' for n in walk_no_nested(init.node))
-    ctx.check('R20.3', ok_code, "CommandException carries a non-zero default exit code", init or nc, (init or nc).node,
-              construct=f"CommandException(code={norm_text(param_default(init, 'code')) if init else '?'})")
-    ent = ctx.func(f"{CU}.console_entrypoint")
-    wrappers = [f for f in p.functions.values() if f.qualname.startswith(ent.qualname + '.<locals>') and f.name == 'wrapper']
-    ok_wrap = False
-    for w in wrappers:
-        for n in ast.walk(w.node):
-            if isinstance(n, ast.With) and any(isinstance(i.context_expr, ast.Call) and callee(ctx, w, i.context_expr) == f"{CU}.nice_console_errors" for i in n.items):
-                inner = [c for s in n.body for c in ast.walk(s) if isinstance(c, ast.Call) and norm_text(c) == 'fn(options)']
-                tests = [(norm_text(st.test), inb) for st, inb in enclosing_ifs(w, n)]
-                ok_wrap = bool(inner) and ('handle_errors', True) in tests
-    ctx.check('R20.3', ok_wrap, "the command body runs inside nice_console_errors when error handling is on", ent, ent.node,
-              construct='with nice_console_errors(): fn(options)')
-    main = ctx.func('emsarray.cli.main')
-    ok_main = any(d.endswith('console_entrypoint') for d in main.decorators) and any(norm_text(s) == 'options.func(options)' for s in main.body)
-    ctx.check('R20.3', ok_main, "main is a console entry point that dispatches to the selected command", main, main.node)
-    bc = ctx.func('emsarray.cli.command.BaseCommand.add_parser')
-    ok_bc = any(isinstance(c.func, ast.Attribute) and c.func.attr == 'set_defaults' and kwarg(c, 'func') is not None
-                and norm_text(kwarg(c, 'func')) == 'self.handle' for c in calls_in(bc))
-    ctx.check('R20.3', ok_bc, "each sub-command parser dispatches to its own handle()", bc, bc.node, construct='parser.set_defaults(func=self.handle)')
+    with ctx.section('R20.3'):
+        nc = ctx.func(f"{CU}.nice_console_errors")
+        tries = [n for n in walk_no_nested(nc.node) if isinstance(n, ast.Try)]
+        ctx.need('R20.3', len(tries) == 1 and any(isinstance(s, ast.Expr) and isinstance(s.value, ast.Yield) for s in tries[0].body),
+                 "nice_console_errors wraps its yield in one try", nc)
+        handlers = tries[0].handlers
+        names = []
+        for h in handlers:
+            nm = 'BaseException' if h.type is None else norm_text(h.type)
+            names.append(nm)
+            last = h.body[-1] if h.body else None
+            ok = False
+            detail = 'no sys.exit at the end of the handler'
+            if isinstance(last, ast.Expr) and isinstance(last.value, ast.Call) and (dotted(last.value.func) in ('sys.exit', 'exit', 'os._exit')
+                                                                                      or dotted(last.value.func) == 'SystemExit'):
+                arg = last.value.args[0] if last.value.args else None
+                v = const_value(arg, None) if arg is not None else None
+                if isinstance(v, int) and not isinstance(v, bool) and v != 0:
+                    ok = True
+                    detail = f"exit({v})"
+                elif arg is not None and isinstance(arg, ast.Attribute) and arg.attr == 'code' and isinstance(arg.value, ast.Name) and arg.value.id == h.name:
+                    ok = True
+                    detail = 'exit(err.code)'
+                else:
+                    detail = f"exit({norm_text(arg) if arg is not None else ''})"
+            elif isinstance(last, ast.Raise) and isinstance(last.exc, ast.Call) and dotted(last.exc.func) == 'SystemExit':
+                v = const_value(last.exc.args[0], None) if last.exc.args else None
+                ok = isinstance(v, int) and v != 0
+                detail = f"raise SystemExit({v})"
+            ctx.check('R20.3', ok, "the handler ends with a non-zero exit status", nc, h, construct=f"except {nm}: ... {detail}")
+        ctx.check('R20.3', 'Exception' in names and 'CommandException' in names, "user-facing and unexpected errors are both handled", nc, tries[0],
+                  construct=f"handlers {names}")
+        ce = p.cls('emsarray.cli.exceptions.CommandException')
+        init = ce.methods.get('__init__')
+        ok_code = False
+        if init is not None:
+            from .common import param_default
+            d = param_default(init, 'code')
+            v = const_value(d, None) if d is not None else None
+            ok_code = isinstance(v, int) and v != 0 and any(norm_text(n) == 'self.code = code' for n in walk_no_nested(init.node))
+        ctx.check('R20.3', ok_code, "CommandException carries a non-zero default exit code", init or nc, (init or nc).node,
+                  construct=f"CommandException(code={norm_text(param_default(init, 'code')) if init else '?'})")
+        ent = ctx.func(f"{CU}.console_entrypoint")
+        wrappers = [f for f in p.functions.values() if f.qualname.startswith(ent.qualname + '.<locals>') and f.name == 'wrapper']
+        ok_wrap = False
+        for w in wrappers:
+            for n in ast.walk(w.node):
+                if isinstance(n, ast.With) and any(isinstance(i.context_expr, ast.Call) and callee(ctx, w, i.context_expr) == f"{CU}.nice_console_errors" for i in n.items):
+                    inner = [c for s in n.body for c in ast.walk(s) if isinstance(c, ast.Call) and norm_text(c) == 'fn(options)']
+                    tests = [(norm_text(st.test), inb) for st, inb in enclosing_ifs(w, n)]
+                    ok_wrap = bool(inner) and ('handle_errors', True) in tests
+        ctx.check('R20.3', ok_wrap, "the command body runs inside nice_console_errors when error handling is on", ent, ent.node,
+                  construct='with nice_console_errors(): fn(options)')
+        main = ctx.func('emsarray.cli.main')
+        ok_main = any(d.endswith('console_entrypoint') for d in main.decorators) and any(norm_text(s) == 'options.func(options)' for s in main.body)
+        ctx.check('R20.3', ok_main, "main is a console entry point that dispatches to the selected command", main, main.node)
+        bc = ctx.func('emsarray.cli.command.BaseCommand.add_parser')
+        ok_bc = any(isinstance(c.func, ast.Attribute) and c.func.attr == 'set_defaults' and kwarg(c, 'func') is not None
+                    and norm_text(kwarg(c, 'func')) == 'self.handle' for c in calls_in(bc))
+        ctx.check('R20.3', ok_bc, "each sub-command parser dispatches to its own handle()", bc, bc.node, construct='parser.set_defaults(func=self.handle)')
 
     # ---- R20.4
-    eg = p.module(f"{CMDS}.export_geometry")
-    fw = eg.assigns.get('format_writers')
-    ctx.require(isinstance(fw, ast.Dict), "export_geometry.format_writers is not a dict literal")
-    writers = {const_value(k, None): p.canonical(eg.resolve(dotted(v) or '')) for k, v in zip(fw.keys, fw.values)}
-    addargs = ctx.func(f"{CMDS}.export_geometry.Command.add_arguments")
-    choices = None
-    default = None
-    for c in calls_in(addargs):
-        if any(const_value(a, None) == '--format' for a in c.args):
-            ch = kwarg(c, 'choices')
-            choices = literal_strings(ch) if ch is not None else None
-            default = const_value(kwarg(c, 'default'), None) if kwarg(c, 'default') is not None else None
-    ctx.check('R20.4', choices is not None and set(choices) - {'auto'} == set(writers) and 'auto' in choices and default == 'auto',
-              "--format offers 'auto' plus exactly the formats that have a writer", addargs, addargs.node,
-              construct=f"choices {choices} vs writers {sorted(writers)}")
-    for fmt, target in sorted(writers.items()):
-        want = f"emsarray.operations.geometry.write_{fmt}"
-        ctx.check('R20.4', target == want and want in p.functions, "each format is written by the library writer of that name", addargs, fw,
-                  construct=f"{fmt!r} -> {target}")
-    gf = ctx.func(f"{CMDS}.export_geometry.Command.guess_format")
-    rng = {const_value(r.value, None) for r in gf.returns()}
-    cfg = ctx.cfg(gf)
-    falls = [n for k, n in cfg.exits() if k == 'fall']
-    raises = [n for k, n in cfg.exits() if k == 'raise']
-    ok_g = rng <= set(writers) and not falls and all(isinstance(r.exc, ast.Call) and (dotted(r.exc.func) or '').endswith('CommandException') for r in raises) and raises
-    ctx.check('R20.4', ok_g, "guess_format returns only formats that have a writer and refuses unknown extensions with a CommandException", gf, gf.node,
-              construct=f"guess_format range {sorted(str(x) for x in rng)}")
-    ext = {}
-    for r in gf.returns():
-        for st, inb in enclosing_ifs(gf, r):
-            ext[const_value(r.value, None)] = norm_text(st.test)
-    want_ext = {'geojson': ('.json', '.geojson'), 'wkt': ('.wkt',), 'wkb': ('.wkb',), 'shapefile': ('.shp',)}
-    ok_ext = all(fmt in ext and all(e in ext[fmt] for e in es) and not any(e2 in ext[fmt] for f2, es2 in want_ext.items() if f2 != fmt for e2 in es2 if e2 not in es)
-                 for fmt, es in want_ext.items())
-    ctx.check('R20.4', ok_ext, "each extension is guessed as its own format", gf, gf.node, construct=f"extension tests {ext}")
-    cmds_pkg = [m for name, m in p.modules.items() if name.startswith(CMDS + '.') and not name.rsplit('.', 1)[-1].startswith('_')]
-    ctx.require(len(cmds_pkg) >= 4, "fewer than four command modules found")
-    for m in sorted(cmds_pkg, key=lambda m: m.name):
-        ci = m.classes.get('Command')
-        ok = ci is not None and p.is_subclass(ci, 'emsarray.cli.command.BaseCommand') and 'handle' in ci.methods and 'add_arguments' in ci.methods
-        ctx.check('R20.4', ok, "a public command module exports a BaseCommand subclass named Command with handle and add_arguments", None, None,
-                  construct=f"{m.name}.Command")
-    fa = ctx.func('emsarray.cli._find_all_commands')
-    ok_fa = any(isinstance(n, ast.Yield) and norm_text(n.value).endswith('.Command') for n in ast.walk(fa.node)) and \
-        any('iter_modules(commands.__path__)' in norm_text(n) for n in ast.walk(fa.node) if isinstance(n, ast.For))
-    ctx.check('R20.4', ok_fa, "sub-commands are discovered from every module of cli.commands", fa, fa.node)
+    with ctx.section('R20.4'):
+        eg = p.module(f"{CMDS}.export_geometry")
+        fw = eg.assigns.get('format_writers')
+        ctx.require(isinstance(fw, ast.Dict), "export_geometry.format_writers is not a dict literal")
+        writers = {const_value(k, None): p.canonical(eg.resolve(dotted(v) or '')) for k, v in zip(fw.keys, fw.values)}
+        addargs = ctx.func(f"{CMDS}.export_geometry.Command.add_arguments")
+        choices = None
+        default = None
+        for c in calls_in(addargs):
+            if any(const_value(a, None) == '--format' for a in c.args):
+                ch = kwarg(c, 'choices')
+                choices = literal_strings(ch) if ch is not None else None
+                default = const_value(kwarg(c, 'default'), None) if kwarg(c, 'default') is not None else None
+        ctx.check('R20.4', choices is not None and set(choices) - {'auto'} == set(writers) and 'auto' in choices and default == 'auto',
+                  "--format offers 'auto' plus exactly the formats that have a writer", addargs, addargs.node,
+                  construct=f"choices {choices} vs writers {sorted(writers)}")
+        for fmt, target in sorted(writers.items()):
+            want = f"emsarray.operations.geometry.write_{fmt}"
+            ctx.check('R20.4', target == want and want in p.functions, "each format is written by the library writer of that name", addargs, fw,
+                      construct=f"{fmt!r} -> {target}")
+        gf = ctx.func(f"{CMDS}.export_geometry.Command.guess_format")
+        rng = {const_value(r.value, None) for r in gf.returns()}
+        cfg = ctx.cfg(gf)
+        falls = [n for k, n in cfg.exits() if k == 'fall']
+        raises = [n for k, n in cfg.exits() if k == 'raise']
+        ok_g = rng <= set(writers) and not falls and all(isinstance(r.exc, ast.Call) and (dotted(r.exc.func) or '').endswith('CommandException') for r in raises) and raises
+        ctx.check('R20.4', ok_g, "guess_format returns only formats that have a writer and refuses unknown extensions with a CommandException", gf, gf.node,
+                  construct=f"guess_format range {sorted(str(x) for x in rng)}")
+        ext = {}
+        for r in gf.returns():
+            for st, inb in enclosing_ifs(gf, r):
+                ext[const_value(r.value, None)] = norm_text(st.test)
+        want_ext = {'geojson': ('.json', '.geojson'), 'wkt': ('.wkt',), 'wkb': ('.wkb',), 'shapefile': ('.shp',)}
+        ok_ext = all(fmt in ext and all(e in ext[fmt] for e in es) and not any(e2 in ext[fmt] for f2, es2 in want_ext.items() if f2 != fmt for e2 in es2 if e2 not in es)
+                     for fmt, es in want_ext.items())
+        ctx.check('R20.4', ok_ext, "each extension is guessed as its own format", gf, gf.node, construct=f"extension tests {ext}")
+        cmds_pkg = [m for name, m in p.modules.items() if name.startswith(CMDS + '.') and not name.rsplit('.', 1)[-1].startswith('_')]
+        ctx.require(len(cmds_pkg) >= 4, "fewer than four command modules found")
+        for m in sorted(cmds_pkg, key=lambda m: m.name):
+            ci = m.classes.get('Command')
+            ok = ci is not None and p.is_subclass(ci, 'emsarray.cli.command.BaseCommand') and 'handle' in ci.methods and 'add_arguments' in ci.methods
+            ctx.check('R20.4', ok, "a public command module exports a BaseCommand subclass named Command with handle and add_arguments", None, None,
+                      construct=f"{m.name}.Command")
+        fa = ctx.func('emsarray.cli._find_all_commands')
+        ok_fa = any(isinstance(n, ast.Yield) and norm_text(n.value).endswith('.Command') for n in ast.walk(fa.node)) and \
+            any('iter_modules(commands.__path__)' in norm_text(n) for n in ast.walk(fa.node) if isinstance(n, ast.For))
+        ctx.check('R20.4', ok_fa, "sub-commands are discovered from every module of cli.commands", fa, fa.node)
 
     # ---- R20.5
-    clip = ctx.func(f"{CMDS}.clip.Command.handle")
-    flow = ctx.flow(clip)
-    cc = [c for c in method_calls(clip, 'clip')]
-    ok = False
-    if len(cc) == 1:
-        c = cc[0]
-        recv = flow.resolve(c.func.value)
-        ds_ok = isinstance(recv, ast.Attribute) and recv.attr == 'ems' and flow.reaches(recv.value, lambda n: isinstance(n, ast.Call)
-                                                                                         and (callee(ctx, clip, n) or '').endswith('open_dataset')
-                                                                                         and norm_text(n.args[0]) == 'options.input_path')
-        extra = [k.arg for k in c.keywords if k.arg not in ('work_dir',)]
-        ok = ds_ok and len(c.args) == 1 and norm_text(c.args[0]) == 'options.clip_geometry' and not extra
-    ctx.check('R20.5', ok, "clip: open_dataset(input).ems.clip(<parsed geometry>, work_dir=...) with the library's default buffer", clip,
-              cc[0] if cc else clip.node)
-    tn = [c for c in method_calls(clip, 'to_netcdf')]
-    ok = (len(tn) == 1 and cc and isinstance(flow.resolve(tn[0].func.value), ast.Attribute) and flow.resolve(tn[0].func.value).attr == 'ems'
-          and flow.resolve(flow.resolve(tn[0].func.value).value) is cc[0] and len(tn[0].args) == 1 and norm_text(tn[0].args[0]) == 'options.output_path')
-    ctx.check('R20.5', ok, "clip: the clipped dataset is saved with its own convention's to_netcdf to the output path", clip, tn[0] if tn else clip.node)
-    ca = ctx.func(f"{CMDS}.clip.Command.add_arguments")
-    ok = any(any(const_value(a, None) == 'clip_geometry' for a in c.args) and kwarg(c, 'type') is not None
-             and p.qualify(kwarg(c, 'type'), ca) == f"{CU}.geometry_argument" for c in calls_in(ca))
-    ctx.check('R20.5', ok, "clip: the geometry argument is parsed by cli.utils.geometry_argument", ca, ca.node)
-    ep = ctx.func(f"{CMDS}.extract_points.Command.handle")
-    flow = ctx.flow(ep)
-    ed = [c for c in calls_in(ep) if callee(ctx, ep, c) == 'emsarray.operations.point_extraction.extract_dataframe']
-    ok = False
-    if len(ed) == 1:
-        c = ed[0]
-        a1 = flow.resolve(c.args[1]) if len(c.args) > 1 else None
-        ok = (len(c.args) == 3 and isinstance(a1, ast.Call) and (callee(ctx, ep, a1) or '').endswith('read_csv')
-              and norm_text(a1.args[0]) == 'options.points' and norm_text(c.args[2]) == 'options.coordinate_columns'
-              and norm_text(kwarg(c, 'point_dimension') or ast.Constant(None)) == 'options.point_dimension'
-              and norm_text(kwarg(c, 'missing_points') or ast.Constant(None)) == 'options.missing_points'
-              and flow.reaches(c.args[0], lambda n: isinstance(n, ast.Call) and (callee(ctx, ep, n) or '').endswith('open_dataset')
-                               and norm_text(n.args[0]) == 'options.input_path')
-              and len(c.keywords) == 2)
-    ctx.check('R20.5', ok, "extract-points: extract_dataframe(dataset, read_csv(points), columns, point_dimension=, missing_points=) with the options as parsed", ep,
-              ed[0] if ed else ep.node)
-    ok = False
-    for t in walk_no_nested(ep.node):
-        if isinstance(t, ast.Try) and ed and any(x is ed[0] for b in t.body for x in ast.walk(b)):
-            for h in t.handlers:
-                if h.type is not None and norm_text(h.type).endswith('NonIntersectingPoints'):
-                    ok = any(isinstance(s, ast.Raise) and isinstance(s.exc, ast.Call) and (dotted(s.exc.func) or '').endswith('CommandException')
-                             for s in h.body)
-    ctx.check('R20.5', ok, "extract-points: points outside the model end the command with a CommandException", ep, ep.node,
-              construct='except NonIntersectingPoints: raise CommandException(...)')
-    wr = [c for c in calls_in(ep) if callee(ctx, ep, c) == 'emsarray.utils.to_netcdf_with_fixes']
-    ok = (len(wr) == 1 and ed and flow.resolve(wr[0].args[0]) is ed[0] and norm_text(wr[0].args[1]) == 'options.output_path')
-    ctx.check('R20.5', ok, "extract-points: the extracted dataset itself is written to the output path", ep, wr[0] if wr else ep.node)
-    for hq in (f"{CMDS}.clip.Command.handle", f"{CMDS}.extract_points.Command.handle", f"{CMDS}.export_geometry.Command.handle"):
-        hf = ctx.func(hq)
-        opens = [c for c in calls_in(hf) if (callee(ctx, hf, c) or '').endswith('open_dataset')]
-        ok = len(opens) == 1 and [norm_text(a) for a in opens[0].args] == ['options.input_path'] and not opens[0].keywords
-        ctx.check('R20.5', ok, "the input is opened exactly as the library opens it: emsarray.open_dataset(input path) with no decoding options", hf,
-                  opens[0] if opens else hf.node, construct=f"{hf.short}: {norm_text(opens[0]) if opens else 'no open_dataset call'}")
-    csvs = [c for c in calls_in(ep) if (callee(ctx, ep, c) or '').endswith('read_csv')]
-    ok = len(csvs) == 1 and [norm_text(a) for a in csvs[0].args] == ['options.points'] and not csvs[0].keywords and \
-        all(ctx.flow(ep).resolve(c.args[1]) is csvs[0] for c in ed)
-    ctx.check('R20.5', ok, "extract-points: the table handed to the library is the CSV as read (no rows dropped, re-indexed or filtered)", ep,
-              csvs[0] if csvs else ep.node, construct=f"dataframe = {norm_text(ctx.flow(ep).resolve(ed[0].args[1])) if ed else '?'}")
-    ex = ctx.func(f"{CMDS}.export_geometry.Command.handle")
-    flow = ctx.flow(ex)
-    wcalls = [c for c in calls_in(ex) if isinstance(c.func, ast.Name) and c.func.id == 'writer']
-    ok = False
-    if len(wcalls) == 1:
-        c = wcalls[0]
-        wv = flow.resolve(c.func)
-        ok_w = isinstance(wv, ast.Subscript) and norm_text(wv.value) == 'format_writers'
-        fmt_alts = set(flow.alternatives(wv.slice)) if ok_w and isinstance(wv.slice, ast.Name) else set()
-        ok_fmt = ok_w and ('attr', ('attr', ('param', 'options'), 'format'), ) != () and any('format' in repr(a) for a in fmt_alts) \
-            and any('guess_format' in repr(a) for a in fmt_alts)
-        ok = (ok_w and ok_fmt and len(c.args) == 2 and flow.reaches(c.args[0], lambda n: isinstance(n, ast.Call)
-                                                                   and (callee(ctx, ex, n) or '').endswith('open_dataset'))
-              and 'output_path' in norm_text(flow.resolve(c.args[1])))
-    ctx.check('R20.5', ok, "export-geometry: format_writers[<requested or guessed format>](dataset, output_path)", ex, wcalls[0] if wcalls else ex.node)
-    auto = [n for n in walk_no_nested(ex.node) if isinstance(n, ast.If) and norm_text(n.test) == "output_format == 'auto'"]
-    ok = len(auto) == 1 and any('self.guess_format(output_path)' in norm_text(s) for s in auto[0].body)
-    ctx.check('R20.5', ok, "export-geometry: the format is guessed from the output path only when 'auto' was requested", ex, auto[0] if auto else ex.node)
-    ok = any(isinstance(t, ast.Try) and any(norm_text(h.type) == 'KeyError' and any(isinstance(s, ast.Raise) and 'CommandException' in norm_text(s) for s in h.body)
-                                             for h in t.handlers if h.type is not None) for t in walk_no_nested(ex.node))
-    ctx.check('R20.5', ok, "export-geometry: an unknown format ends the command with a CommandException", ex, ex.node,
-              construct='except KeyError: raise CommandException(...)')
+    with ctx.section('R20.5'):
+        clip = ctx.func(f"{CMDS}.clip.Command.handle")
+        flow = ctx.flow(clip)
+        cc = [c for c in method_calls(clip, 'clip')]
+        ok = False
+        if len(cc) == 1:
+            c = cc[0]
+            recv = flow.resolve(c.func.value)
+            ds_ok = isinstance(recv, ast.Attribute) and recv.attr == 'ems' and flow.reaches(recv.value, lambda n: isinstance(n, ast.Call)
+                                                                                             and (callee(ctx, clip, n) or '').endswith('open_dataset')
+                                                                                             and norm_text(n.args[0]) == 'options.input_path')
+            extra = [k.arg for k in c.keywords if k.arg not in ('work_dir',)]
+            ok = ds_ok and len(c.args) == 1 and norm_text(c.args[0]) == 'options.clip_geometry' and not extra
+        ctx.check('R20.5', ok, "clip: open_dataset(input).ems.clip(<parsed geometry>, work_dir=...) with the library's default buffer", clip,
+                  cc[0] if cc else clip.node)
+        tn = [c for c in method_calls(clip, 'to_netcdf')]
+        ok = (len(tn) == 1 and cc and isinstance(flow.resolve(tn[0].func.value), ast.Attribute) and flow.resolve(tn[0].func.value).attr == 'ems'
+              and flow.resolve(flow.resolve(tn[0].func.value).value) is cc[0] and len(tn[0].args) == 1 and norm_text(tn[0].args[0]) == 'options.output_path')
+        ctx.check('R20.5', ok, "clip: the clipped dataset is saved with its own convention's to_netcdf to the output path", clip, tn[0] if tn else clip.node)
+        ca = ctx.func(f"{CMDS}.clip.Command.add_arguments")
+        ok = any(any(const_value(a, None) == 'clip_geometry' for a in c.args) and kwarg(c, 'type') is not None
+                 and p.qualify(kwarg(c, 'type'), ca) == f"{CU}.geometry_argument" for c in calls_in(ca))
+        ctx.check('R20.5', ok, "clip: the geometry argument is parsed by cli.utils.geometry_argument", ca, ca.node)
+        ep = ctx.func(f"{CMDS}.extract_points.Command.handle")
+        flow = ctx.flow(ep)
+        ed = [c for c in calls_in(ep) if callee(ctx, ep, c) == 'emsarray.operations.point_extraction.extract_dataframe']
+        ok = False
+        if len(ed) == 1:
+            c = ed[0]
+            a1 = flow.resolve(c.args[1]) if len(c.args) > 1 else None
+            ok = (len(c.args) == 3 and isinstance(a1, ast.Call) and (callee(ctx, ep, a1) or '').endswith('read_csv')
+                  and norm_text(a1.args[0]) == 'options.points' and norm_text(c.args[2]) == 'options.coordinate_columns'
+                  and norm_text(kwarg(c, 'point_dimension') or ast.Constant(None)) == 'options.point_dimension'
+                  and norm_text(kwarg(c, 'missing_points') or ast.Constant(None)) == 'options.missing_points'
+                  and flow.reaches(c.args[0], lambda n: isinstance(n, ast.Call) and (callee(ctx, ep, n) or '').endswith('open_dataset')
+                                   and norm_text(n.args[0]) == 'options.input_path')
+                  and len(c.keywords) == 2)
+        ctx.check('R20.5', ok, "extract-points: extract_dataframe(dataset, read_csv(points), columns, point_dimension=, missing_points=) with the options as parsed", ep,
+                  ed[0] if ed else ep.node)
+        ok = False
+        for t in walk_no_nested(ep.node):
+            if isinstance(t, ast.Try) and ed and any(x is ed[0] for b in t.body for x in ast.walk(b)):
+                for h in t.handlers:
+                    if h.type is not None and norm_text(h.type).endswith('NonIntersectingPoints'):
+                        ok = any(isinstance(s, ast.Raise) and isinstance(s.exc, ast.Call) and (dotted(s.exc.func) or '').endswith('CommandException')
+                                 for s in h.body)
+        ctx.check('R20.5', ok, "extract-points: points outside the model end the command with a CommandException", ep, ep.node,
+                  construct='except NonIntersectingPoints: raise CommandException(...)')
+        wr = [c for c in calls_in(ep) if callee(ctx, ep, c) == 'emsarray.utils.to_netcdf_with_fixes']
+        ok = (len(wr) == 1 and ed and flow.resolve(wr[0].args[0]) is ed[0] and norm_text(wr[0].args[1]) == 'options.output_path')
+        ctx.check('R20.5', ok, "extract-points: the extracted dataset itself is written to the output path", ep, wr[0] if wr else ep.node)
+        for hq in (f"{CMDS}.clip.Command.handle", f"{CMDS}.extract_points.Command.handle", f"{CMDS}.export_geometry.Command.handle"):
+            hf = ctx.func(hq)
+            opens = [c for c in calls_in(hf) if (callee(ctx, hf, c) or '').endswith('open_dataset')]
+            ok = len(opens) == 1 and [norm_text(a) for a in opens[0].args] == ['options.input_path'] and not opens[0].keywords
+            ctx.check('R20.5', ok, "the input is opened exactly as the library opens it: emsarray.open_dataset(input path) with no decoding options", hf,
+                      opens[0] if opens else hf.node, construct=f"{hf.short}: {norm_text(opens[0]) if opens else 'no open_dataset call'}")
+        csvs = [c for c in calls_in(ep) if (callee(ctx, ep, c) or '').endswith('read_csv')]
+        ok = len(csvs) == 1 and [norm_text(a) for a in csvs[0].args] == ['options.points'] and not csvs[0].keywords and \
+            all(ctx.flow(ep).resolve(c.args[1]) is csvs[0] for c in ed)
+        ctx.check('R20.5', ok, "extract-points: the table handed to the library is the CSV as read (no rows dropped, re-indexed or filtered)", ep,
+                  csvs[0] if csvs else ep.node, construct=f"dataframe = {norm_text(ctx.flow(ep).resolve(ed[0].args[1])) if ed else '?'}")
+        ex = ctx.func(f"{CMDS}.export_geometry.Command.handle")
+        flow = ctx.flow(ex)
+        wcalls = [c for c in calls_in(ex) if isinstance(c.func, ast.Name) and c.func.id == 'writer']
+        ok = False
+        if len(wcalls) == 1:
+            c = wcalls[0]
+            wv = flow.resolve(c.func)
+            ok_w = isinstance(wv, ast.Subscript) and norm_text(wv.value) == 'format_writers'
+            fmt_alts = set(flow.alternatives(wv.slice)) if ok_w and isinstance(wv.slice, ast.Name) else set()
+            ok_fmt = ok_w and ('attr', ('attr', ('param', 'options'), 'format'), ) != () and any('format' in repr(a) for a in fmt_alts) \
+                and any('guess_format' in repr(a) for a in fmt_alts)
+            ok = (ok_w and ok_fmt and len(c.args) == 2 and flow.reaches(c.args[0], lambda n: isinstance(n, ast.Call)
+                                                                       and (callee(ctx, ex, n) or '').endswith('open_dataset'))
+                  and 'output_path' in norm_text(flow.resolve(c.args[1])))
+        ctx.check('R20.5', ok, "export-geometry: format_writers[<requested or guessed format>](dataset, output_path)", ex, wcalls[0] if wcalls else ex.node)
+        auto = [n for n in walk_no_nested(ex.node) if isinstance(n, ast.If) and norm_text(n.test) == "output_format == 'auto'"]
+        ok = len(auto) == 1 and any('self.guess_format(output_path)' in norm_text(s) for s in auto[0].body)
+        ctx.check('R20.5', ok, "export-geometry: the format is guessed from the output path only when 'auto' was requested", ex, auto[0] if auto else ex.node)
+        ok = any(isinstance(t, ast.Try) and any(norm_text(h.type) == 'KeyError' and any(isinstance(s, ast.Raise) and 'CommandException' in norm_text(s) for s in h.body)
+                                                 for h in t.handlers if h.type is not None) for t in walk_no_nested(ex.node))
+        ctx.check('R20.5', ok, "export-geometry: an unknown format ends the command with a CommandException", ex, ex.node,
+                  construct='except KeyError: raise CommandException(...)')
+
 
 
 # --------------------------------------------------------------------------- checker self-test
